@@ -30,6 +30,11 @@ class Check(PropertyCheck):
         a = declib.bzcraft.random_plain(rng, 300)
         b = declib.bzcraft.random_plain(rng, 300)
         files.append((bz2.compress(a, 1) + bz2.compress(b, 9) + bz2.compress(b"", 5), a + b, "libbz2-concat"))
+        # groups made of 20-bit codes only (1000-bit groups), to be decoded with many input-block sizes
+        self.dense = []
+        for _ in range(2 if quick else 8):
+            f, plain = declib.bzcraft.dense20_file(rng, 30000 if quick else 80000)
+            self.dense.append((f, plain))
         # concatenated streams of different levels where a LATER stream has the bigger blocks
         for _ in range(2 if quick else 10):
             l1 = rng.range(1, 4)
@@ -121,8 +126,25 @@ class Check(PropertyCheck):
                     break
         return out
 
+    def dense_runs(self):
+        """dense 20-bit groups against input blocks of many sizes, so that a group starts at every distance from a block end"""
+        out = []
+        n = 0
+        for f, plain in getattr(self, "dense", []):
+            for gran in (520, 1000, 1024, 1500, 2048, 3000, 4096, 8192, 12000):
+                for nw in (1, 3):
+                    r = declib.run_impl([f], nworkers=(nw,), env={"LBZIP2_VERIF_IN_GRANUL": str(gran)}, vary_granules=False, timeout=60)[0]
+                    n += 1
+                    if r[0] != declib.fmt_out(plain):
+                        out.append(Violation("rejects-conforming:dense20", "lbzip2 -d -n%d with %d-byte input blocks does not reproduce a conforming stream of 20-bit codes: %s" % (nw, gran, r[0]),
+                                             declib.hexfile_payload(f, {"granule": gran, "impl": r[0]})))
+                        if len(out) >= 2:
+                            return out
+        self.notes.append("dense-20-bit runs: %d" % n)
+        return out
+
     def direct(self):
-        return self.check_files(self.files, self.plains, self.tags, self.impl)
+        return self.check_files(self.files, self.plains, self.tags, self.impl) + self.dense_runs()
 
     def search(self):
         self.rng = vlib.SplitMix(self.seed + 1000)
